@@ -141,8 +141,6 @@ Prescribed == Plan(cfg, Revealed, Strict)
 Accepted == Plans(cfg, Revealed)
 \* the machine's result carries the set of admissible error classes
 SameResult(p) == result.kind = p.result.kind /\ result.groups = p.result.groups /\ result.errs = p.result.errs
-\* (for Gen_Stub) the behaviours of the per-candidate reading
-PerCandidateReading == ~(st = "start" /\ st' = "done" /\ ~IsLiteral(cfg))
 
 TypeOK ==
     /\ st \in {"start", "pick", "work", "done"}
